@@ -145,7 +145,13 @@ pub fn replay(prop: &str, session: &str, rep: &mut Report) -> bool {
             return false;
         }
     };
-    let env = SessionEnv::from_build(if prop == "ALL" { P_ALL } else { prop_bit(prop) });
+    let env = SessionEnv::from_build(if prop == "ALL" {
+        P_ALL
+    } else if prop == "C16" {
+        P_C01 | P_C05 | P_C06 | P_C10 | P_C11 | P_C13 | P_C15 | P_C16
+    } else {
+        prop_bit(prop)
+    });
     let r = run_guarded(&cfg, &ops, &env, rep);
     println!("session: {}", show_ops(&ops));
     println!("config: cmd={} hist={} prompt={:?} set={}", cfg.cmd, cfg.hist, crate::rig::PROMPTS[cfg.prompt], cfg.set.name());
